@@ -100,6 +100,37 @@ def offset_table_protocol(chk, io_mod, rid):
     chk.ob(rid, "skipper: seek(offset) then exactly `remaining` readline() calls on the same file", ok, sk, "")
     fb = [n for n in walk_body(sk) if isinstance(n, ast.Assign) and isinstance(n.targets[0], ast.Name) and u(n.value) == params_of(sk)[2]]
     chk.ob(rid, "without a table all lines are skipped one by one from offset 0", bool(fb), sk, "")
+    # freshness: a table is used only when it exists and is at least as new as the data file; the scan is skipped only for such a table
+    from sa import pat
+    iv = fm.get("is_valid")
+    ent = fm.get("__enter__")
+    finit = fm.get("__init__")
+    T = D = None
+    if ent is not None:
+        for n in walk_body(ent):
+            if isinstance(n, ast.Call) and dotted(n.func) == "open" and n.args and is_self_attr(n.args[0]):
+                T = n.args[0].attr
+    if finit is not None:
+        first = params_of(finit)[1]
+        for n in walk_body(finit):
+            if isinstance(n, ast.Assign) and is_self_attr(n.targets[0]) and u(n.value) == first:
+                D = n.targets[0].attr
+    ok = False
+    detail = ""
+    if iv is not None and T and D and T != D:
+        rv = [n for n in walk_body(iv) if isinstance(n, ast.Return)]
+        if len(rv) == 1:
+            from sa.cfg import conjuncts
+            cj = conjuncts(rv[0].value)
+            has_exists = any(isinstance(c, ast.Call) and u(c.func) == "self.exists" for c in cj)
+            fresh = any(pat.is_(c, f"os.path.getmtime(self.{T}) >= os.path.getmtime(self.{D})", f"os.path.getmtime(self.{T}) > os.path.getmtime(self.{D})") for c in cj)
+            ok = has_exists and fresh and len(cj) == 2
+            detail = u(rv[0].value)
+    chk.ob(rid, "table valid iff it exists and its mtime >= the data file's mtime", ok, iv if iv is not None else FT, detail, key=f"{io_mod.relpath}:FileOffsetTable.is_valid:freshness")
+    ivc = [n for n in walk_body(pf) if isinstance(n, ast.Call) and last_attr(n.func) == "is_valid"]
+    ok = len(ivc) == 1 and loop is not None and any(f_ is not None for f_ in [pat.guarded(loop, "not E_t.is_valid()")]) and bool(rets) \
+        and all(pat.guarded(r, "not E_t.is_valid()") is None for r in rets if isinstance(r.value, ast.Constant) and r.value.value is None)
+    chk.ob(rid, "the scan runs iff the table is not valid; None is returned only for a valid table", ok, ivc[0] if ivc else pf, "", key=f"{io_mod.relpath}:prepare_file_offset_table:rebuild-guard")
 
 
 def run(chk):
@@ -162,6 +193,20 @@ def run(chk):
     chk.ob("O14.1", "broad handler removes tmp and re-raises", ok, trys[0] if trys else dl, "")
     opens_final = [n for n in walk_body(dl) if isinstance(n, ast.Call) and dotted(n.func) == "open" and u(n.args[0]) == final]
     chk.ob("O14.1", "the final name is never opened for writing here", not opens_final, opens_final[0] if opens_final else dl, "")
+    # the size the download is verified against is the DECLARED one; the transfer's own Content-Length may stand in only when nothing was declared
+    from sa import pat
+    dh = net.func("_download_http")
+    ep = [p_ for p_ in params_of(dh) if "size" in p_]
+    if not ep:
+        raise AnchorMissing("expected-size parameter of _download_http")
+    esz = ep[0]
+    ow = [n for n in walk_body(dh) if isinstance(n, (ast.Assign, ast.AugAssign)) and any(isinstance(t, ast.Name) and t.id == esz for t in (n.targets if isinstance(n, ast.Assign) else [n.target]))]
+    for n in ow:
+        ok = pat.guarded(n, f"{esz} is None") is not None
+        chk.ob("O14.1", "a declared expected size is never replaced by the response's own Content-Length", ok, n,
+               short(n, 70) + ("" if ok else " — a truncated but self-consistent response passes the size check and is renamed to the final name"), key=f"{_N}:_download_http:overwrite-expected-size")
+    rets_ = [n for n in walk_body(dh) if isinstance(n, ast.Return) and n.value is not None]
+    chk.ob("O14.1", "the transfer returns the size to verify against (declared, else Content-Length)", bool(rets_) and all(u(r.value) == esz for r in rets_), rets_[0] if rets_ else dh, "")
 
     # ---- O14.2 retry budget / HTTP status --------------------------------------------------------------------------------------------------------
     chk.rule("O14.2", "HTTP retry loop: range(N + 1), retry only for the two urllib3 protocol classes, re-raise on the last index, result returned; every non-2xx status raises an HTTP error "
